@@ -339,9 +339,18 @@ def check_genbank(spec: dict) -> dict:
     if text_again != text and not found:      # a record that differs is written differently: nothing new
         one, two = text.splitlines(), text_again.splitlines()
         lines = [[a, b] for a, b in zip(one, two) if a != b][:6]
-        found.append(("gb_fixed_point", dict(context, lines=lines, lengths=[len(one), len(two)])))
+        found.append(("gb_fixed_point", dict(context, lines=lines, lengths=[len(one), len(two)],
+                                             order_only=sorted(one) == sorted(two))))
     _raise_first("genbank", spec, found)
     return _result(spec, classes)
+
+
+def _same_features_other_order(one: dict, two: dict) -> bool:
+    """ two JSON records that differ only in the order of their features """
+    rest_one = {key: value for key, value in one.items() if key not in ("features", "areas")}
+    rest_two = {key: value for key, value in two.items() if key not in ("features", "areas")}
+    return (rest_one == rest_two and one["features"] != two["features"]
+            and sorted(map(std_json.dumps, one["features"])) == sorted(map(std_json.dumps, two["features"])))
 
 
 def _json_text(record) -> str:
@@ -374,7 +383,8 @@ def check_json(spec: dict) -> dict:
         text_again = _json_text(reloaded)
     if text_again != text and not found:
         one, two = std_json.loads(text), std_json.loads(text_again)
-        found.append(("json_fixed_point", dict(context, diff=rec.diff_dumps(one, two, limit=60))))
+        found.append(("json_fixed_point", dict(context, diff=rec.diff_dumps(one, two, limit=60),
+                                               order_only=_same_features_other_order(one, two))))
     _raise_first("json", spec, found)
     return _result(spec, classes)
 
@@ -488,7 +498,8 @@ def check_results(spec: dict) -> dict:
     for key, value in std_json.loads(handle.getvalue()).items():
         two.setdefault(key, value)
     if one != two and not found:
-        found.append(("results_fixed_point", dict(context, diff=rec.diff_dumps(one, two, limit=60))))
+        found.append(("results_fixed_point", dict(context, diff=rec.diff_dumps(one, two, limit=60), order_only=all(
+            _same_features_other_order(first, second) for first, second in zip(one["records"], two["records"])))))
     _raise_first("results", spec, found)
     return _result(spec, classes)
 
@@ -793,6 +804,18 @@ def sig_long_secondary_id_blank(sub, spec, clause, detail) -> bool:
     return False
 
 
+def sig_feature_order_not_transitive(sub, spec, clause, detail) -> bool:
+    """ circular record with a source feature, an area crossing the origin and another feature crossing it: the area and
+        the source are unordered (neither sorts first) while area < gene < source, so sorted(all_features) depends on the
+        order the genes were added in: the same features are written in another order after a reload """
+    if clause not in ("gb_fixed_point", "json_fixed_point", "results_fixed_point") or not detail.get("order_only"):
+        return False
+    classes = set(detail.get("classes") or [])
+    return (bool(spec.get("circular")) and spec.get("source", True)
+            and bool(classes & {"protocluster_span", "subregion_span", "cand_span", "region_span"})
+            and bool(classes & {"gene_span", "domain_span", "misc_span", "module_span"}))
+
+
 SIGNATURES = {
     "equal_sort_key": sig_equal_sort_key,
     "order_conflict": sig_order_conflict,
@@ -807,6 +830,7 @@ SIGNATURES = {
     "order_operator_lost_by_codon_start": sig_order_operator_lost_by_codon_start,
     "long_name_inside_value_blank": sig_long_name_inside_value_blank,
     "long_secondary_id_blank": sig_long_secondary_id_blank,
+    "feature_order_not_transitive": sig_feature_order_not_transitive,
 }
 
 
